@@ -128,7 +128,7 @@ CHECKS = {
         runs=[dict(check="c11", scale=10, timeout_s=900), dict(check="c03", timeout_s=900, scale=4),
               # real threads: the C02 workload with the one-instant rule (torn_snapshot) evaluated on every response series
               dict(check="c02", scale=0.5, timeout_s=1500)],
-        required=["reads_deferred_behind_null_unsolicited", "deferred_read_superseded", "objects_checked", "complete_series_ok", "multi_fragment_series_ok", "partial_series_prefix_ok", "updates_between_fragments", "wrong_confirms", "series_ended_by_timeout", "series_ended_by_reconnect", "series_ended_by_new_request",
+        required=["reads_with_more_than_64_headers_ok", "reads_deferred_behind_null_unsolicited", "deferred_read_superseded", "objects_checked", "complete_series_ok", "multi_fragment_series_ok", "partial_series_prefix_ok", "updates_between_fragments", "wrong_confirms", "series_ended_by_timeout", "series_ended_by_reconnect", "series_ended_by_new_request",
                   "snapshot_fragments_consistent", "snapshot_later_fragments", "snapshot_instant_unique"],
         thorough_scale=25.0,
         abnormal_exit_is_violation=True,
@@ -140,7 +140,7 @@ CHECKS = {
               "ENABLE/DISABLE of random classes; READ; non-READ request; reconnect close/pre-empt}; rules U1-U8 are evaluated afterwards over the virtual-time-stamped log of every unsolicited and solicited fragment; "
               "the C03 driver (unsolicited selection and U1 on data) runs as a second part. distinct = (retry limit, timeout, delay, number of unsolicited transmissions, null confirmed) tuples"),
         runs=[dict(check="c14", scale=10, timeout_s=900), dict(check="c03", timeout_s=900, scale=4)],
-        required=["long_retry_delay_waited", "U1_fresh_null_sequence_ok", "null_confirmed_scenarios", "U2_data_responses_checked", "U4_retry_ok", "U5_retry_delay_ok", "U7_non_read_immediate_ok", "U7_deferred_read_served_ok", "U7_read_idle_ok", "U8_prompt_unsolicited_ok",
+        required=["U7_reads_with_headers_up_to_the_limit", "long_retry_delay_waited", "U1_fresh_null_sequence_ok", "null_confirmed_scenarios", "U2_data_responses_checked", "U4_retry_ok", "U5_retry_delay_ok", "U7_non_read_immediate_ok", "U7_deferred_read_served_ok", "U7_read_idle_ok", "U8_prompt_unsolicited_ok",
                   "new_series_after_confirm", "new_series_after_reconnect", "new_series_after_disable"],
         thorough_scale=25.0,
         abnormal_exit_is_violation=True,
@@ -152,7 +152,7 @@ CHECKS = {
               "{wrong sequence, wrong source (other association / unknown), solicited with UNS, illegal FIR/FIN/CON for the position, IIN2 rejection, unsolicited (null/data), duplicate unsolicited, truncated objects, unknown object} optionally followed by the faithful answer; "
               "distinct = (task kind, fragment class, fragment position, CON) tuples in which the acceptance/confirm/delivery rules were evaluated"),
         runs=[dict(check="c15", scale=10, timeout_s=900)],
-        required=["misflagged_unsolicited_sent", "accepted_confirmed_ok", "rejected_not_confirmed_ok", "completed_with_answer_ok", "not_completed_without_answer_ok", "deliveries_match_ok", "unsolicited_confirmed_ok", "unsolicited_delivery_ok", "unsolicited_duplicates_sent", "startup_unsol_retry_delivered_ok", "startup_unsol_duplicate_null_ok", "long_series_ok"],
+        required=["custom_handler_deliveries_ok", "misflagged_unsolicited_sent", "accepted_confirmed_ok", "rejected_not_confirmed_ok", "completed_with_answer_ok", "not_completed_without_answer_ok", "deliveries_match_ok", "unsolicited_confirmed_ok", "unsolicited_delivery_ok", "unsolicited_duplicates_sent", "startup_unsol_retry_delivered_ok", "startup_unsol_duplicate_null_ok", "long_series_ok"],
         thorough_scale=25.0,
         abnormal_exit_is_violation=True,
         assumptions=HARNESS_TRUST,
@@ -176,7 +176,7 @@ CHECKS = {
         rule=("generated association configurations (disable/enable/integrity classes on or off, three time-sync procedures, retry min/max with non power-of-two ratios, keep-alive, periodic poll) against a scripted outstation that answers faithfully with scripted IIN1.7 / IIN1.4 bits, stays silent for / rejects with IIN2 / answers with a malformed reply the first n attempts of one automatic task, injects empty and data-bearing unsolicited responses at random positions and reconnects; "
               "M1 order of first occurrences per connection, M2 clear-restart is the next request after IIN1.7 and integrity/enable are repeated before polls resume, M3 unsolicited data is neither delivered nor confirmed before integrity completes (empty ones are confirmed; data is delivered after), M4 exact back-off delays in virtual time"),
         runs=[dict(check="c17", scale=2, timeout_s=900)],
-        required=["M1_step_in_order_ok", "M1_full_startup_seen", "M2_step_in_order_ok", "poll_after_startup_ok", "M3_gated_ok", "M3_gated_after_restart_ok", "M3_null_confirmed_ok", "M3_delivered_after_integrity_ok", "M4_backoff_ok", "M4_backoff_ok_Silent", "M4_backoff_ok_BadReply", "M4_backoff_ok_Stubborn", "M4_backoff_at_max_ok", "unsolicited_idle", "unsolicited_awaiting_reply", "unsolicited_back_off", "rejected_by_iin2_replies"],
+        required=["M1_step_in_order_ok", "M1_full_startup_seen", "M2_step_in_order_ok", "poll_after_startup_ok", "M3_gated_ok", "M3_gated_after_restart_ok", "M3_null_confirmed_ok", "M3_delivered_after_integrity_ok", "M4_backoff_ok", "M4_backoff_ok_Silent", "M4_backoff_ok_BadReply", "M4_backoff_ok_Stubborn", "M4_backoff_at_max_ok", "M4_backoff_ok_time_sync_BadReply", "M4_backoff_ok_time_sync_Rejected", "M4_backoff_ok_time_sync_StillNeedsTime", "unsolicited_idle", "unsolicited_awaiting_reply", "unsolicited_back_off", "rejected_by_iin2_replies"],
         thorough_scale=12.0,
         abnormal_exit_is_violation=True,
         assumptions=HARNESS_TRUST,
